@@ -45,6 +45,9 @@ type Exec struct {
 	props       []string
 	callOrd     map[string]int
 	initOnly    map[*ssa.Global]*globalInit
+	invAllocs   []invAlloc
+	storeFr     *Frame
+	storePos    token.Pos
 }
 
 type Frame struct {
@@ -80,6 +83,7 @@ type loopInfo struct {
 	headPhis map[*ssa.Phi]Val
 	measure0 Term
 	hasMeasure bool
+	invMark  int
 }
 
 func NewExec(ld *Loaded, cs *ContractSet) *Exec {
@@ -317,6 +321,7 @@ func (ex *Exec) heapInit(key string, sort Sort) Term {
 	}
 	t := ex.sc.Declare(smtIdent("H0."+key), sort)
 	ex.heapInits[key] = t
+	ex.fieldInvAxiom(key, t, T(SInt, "alloc0"))
 	return t
 }
 
@@ -441,7 +446,9 @@ func (ex *Exec) storeHeapTyped(st *State, base Term, root types.Type, t types.Ty
 	if s, ok := scalarSort(t); ok {
 		key := heapKeyFor(root, name)
 		arr := ex.heapGet(st, key, ArraySort(SInt, s))
-		ex.heapSet(st, key, Store(arr, base, ex.term(v, s)))
+		vt := ex.term(v, s)
+		ex.storeInvCheck(st, key, base)
+		ex.heapSet(st, key, Store(arr, base, vt))
 		return
 	}
 	if u, ok := t.Underlying().(*types.Struct); ok {
@@ -466,6 +473,7 @@ func (ex *Exec) storeHeapTyped(st *State, base Term, root types.Type, t types.Ty
 // havocHeap replaces the named heap arrays (all of them if keys == nil) by
 // fresh ones; the allocation counter may only grow.
 func (ex *Exec) havocHeap(st *State, keys []string) {
+	var created []string
 	if keys == nil {
 		for k := range ex.heapInits {
 			if _, ok := st.heap[k]; !ok {
@@ -479,6 +487,7 @@ func (ex *Exec) havocHeap(st *State, keys []string) {
 		sort.Strings(ks)
 		for _, k := range ks {
 			st.heap[k] = ex.sc.Fresh("hv."+k, st.heap[k].Sort)
+			created = append(created, k)
 		}
 		// arrays not touched so far must also be considered changed: bump a version
 		// so that later first-time reads do not see the initial array.
@@ -516,6 +525,7 @@ func (ex *Exec) havocHeap(st *State, keys []string) {
 			}
 			if ok {
 				st.heap[k] = ex.sc.Fresh("hv."+k, cur.Sort)
+				created = append(created, k)
 			} else {
 				// unknown sort yet: mark as havocked lazily
 				st.heap["__hv."+k] = ex.sc.Fresh("hvmark", SInt)
@@ -525,6 +535,9 @@ func (ex *Exec) havocHeap(st *State, keys []string) {
 	na := ex.sc.Fresh("alloc", SInt)
 	ex.sc.Assert(app(SBool, ">=", na, st.alloc))
 	st.alloc = na
+	for _, k := range created {
+		ex.fieldInvAxiom(k, st.heap[k], na)
+	}
 }
 
 func (ex *Exec) havocAll(st *State, where string) {
@@ -551,6 +564,7 @@ func (ex *Exec) heapRead(st *State, key string, sort Sort) Term {
 	if epoch || mark {
 		t := ex.sc.Fresh("hv."+key, sort)
 		st.heap[key] = t
+		ex.fieldInvAxiom(key, t, st.alloc)
 		return t
 	}
 	return ex.heapInit(key, sort)
@@ -660,7 +674,9 @@ func (ex *Exec) store(fr *Frame, st *State, p Val, v Val, t types.Type, pos toke
 		return
 	case HeapPtr:
 		ex.nilCheck(fr, x.Base, pos, "field")
+		ex.storeFr, ex.storePos = fr, pos
 		ex.storeHeap(st, x.Base, x.Root, x.Path, v)
+		ex.storeFr = nil
 		return
 	case GlobalPtr:
 		ex.storeGlobal(st, x, t, v)
@@ -670,7 +686,9 @@ func (ex *Exec) store(fr *Frame, st *State, p Val, v Val, t types.Type, pos toke
 		return
 	case SV:
 		ex.nilCheck(fr, x.T, pos, "deref")
+		ex.storeFr, ex.storePos = fr, pos
 		ex.storeHeapTyped(st, x.T, t, t, "", v)
+		ex.storeFr = nil
 		return
 	}
 	ex.unsup(fmt.Sprintf("store through %T", p))
@@ -940,6 +958,11 @@ func (ex *Exec) regexpFacts(g *ssa.Global, v Term) {
 	}
 	ex.sc.Assert(Eq(app(SBool, "sf.reGroupDigits", v, IntLit(0)), tFalse))
 	ex.sc.Assert(Eq(app(SInt, "sf.reGroupMinLen", v, IntLit(0)), IntLit(int64(rxMinLen(re)))))
+	// a pattern without empty-width assertions that can match the empty
+	// string finds a match (possibly empty) at the start of every input
+	always := rxMinLen(re) == 0 && !rxHasAssertion(re)
+	ex.sc.DeclareFun("sf.reAlwaysMatches", []Sort{SInt}, SBool)
+	ex.sc.Assert(Eq(app(SBool, "sf.reAlwaysMatches", v), BoolLit(always)))
 	ex.assumedUsed[fmt.Sprintf("regexp facts of %s from its literal pattern %q (regexp/syntax): %d groups, minimal lengths %v", g.Name(), pat, n, mins)] = true
 }
 
@@ -1101,4 +1124,18 @@ func (ex *Exec) heapReadAny(st *State, key string) Term {
 	}
 	st.heap["__hv."+key] = ex.sc.Fresh("hvmark", SInt)
 	return Term{}
+}
+
+// rxHasAssertion: the pattern contains an anchor or a word-boundary assertion.
+func rxHasAssertion(r *syntax.Regexp) bool {
+	switch r.Op {
+	case syntax.OpBeginLine, syntax.OpEndLine, syntax.OpBeginText, syntax.OpEndText, syntax.OpWordBoundary, syntax.OpNoWordBoundary, syntax.OpNoMatch:
+		return true
+	}
+	for _, s := range r.Sub {
+		if rxHasAssertion(s) {
+			return true
+		}
+	}
+	return false
 }
